@@ -34,6 +34,22 @@ def endsSlash (s : Str) : Bool := s.getLast? == some '/'
 def inNamespace (ns p : Str) : Bool :=
   ns == ['/'] || p == ns || (ns ++ ['/']).isPrefixOf p
 
+/-- The components of a path: the stretches between slashes (`/a/b` has `["", "a", "b"]`). -/
+def components : Str → List Str
+  | [] => [[]]
+  | c :: t =>
+    if c = '/' then [] :: components t
+    else
+      match components t with
+      | p :: ps => (c :: p) :: ps
+      | [] => [[c]]
+
+/-- "That path or a descendant of it", said with components: the namespace's components are an initial
+stretch of the path's components (the root namespace contains everything).  `inNamespace` above is the
+same thing said with characters - theorem `namespace_is_component_prefix`. -/
+def descendantOrSelf (ns p : Str) : Prop :=
+  ns = ['/'] ∨ components ns <+: components p
+
 /-- argNpath: equal, or whichever of the two ends in '/' is a prefix of the other. -/
 def argPathMatches (v a : Str) : Bool :=
   a == v || (endsSlash v && v.isPrefixOf a) || (endsSlash a && a.isPrefixOf v)
@@ -60,6 +76,109 @@ def specMatches (r : RuleArgs) (m : Msg) : Bool :=
   && optAll r.pathNs (pathIn m)
   && (r.args.getD []).all (argIs m)
   && (r.argPaths.getD []).all (argPathIs m)
+
+/-! ### SPEC of the rule text: what a DBus match-rule text means
+
+From the "Match Rules" section of the DBus specification: a rule is a comma-separated list of
+`key=value` pairs.  In a value an apostrophe starts / ends a quoted stretch inside which every
+other character is literal; outside quotes a backslash followed by an apostrophe stands for an
+apostrophe and a comma ends the value.  Keys: `type`, `sender`, `interface`, `member`, `path`,
+`path_namespace`, `destination`, `arg0namespace`, `argN`, `argNpath` (N decimal).  Nothing here
+looks at txdbus. -/
+
+/-- One constraint of a rule, as the specification names them. -/
+inductive Constraint where
+  | mtype (v : Str) | sender (v : Str) | iface (v : Str) | member (v : Str) | path (v : Str)
+  | pathNs (v : Str) | dest (v : Str) | arg0ns (v : Str)
+  | arg (i : Nat) (v : Str) | argPath (i : Nat) (v : Str)
+  deriving DecidableEq, Repr
+
+def optC (f : Str → Constraint) : Option Str → List Constraint
+  | none => []
+  | some v => [f v]
+
+/-- The constraints a rule consists of (`arg=[]` contributes none). -/
+def constraintsOf (a : RuleArgs) : List Constraint :=
+  optC .mtype a.mtype ++ optC .sender a.sender ++ optC .iface a.iface ++ optC .member a.member
+  ++ optC .path a.path ++ optC .pathNs a.pathNs ++ optC .dest a.dest
+  ++ (a.args.getD []).map (fun iv => .arg iv.1 iv.2)
+  ++ (a.argPaths.getD []).map (fun iv => .argPath iv.1 iv.2)
+  ++ optC .arg0ns a.arg0ns
+
+/-- Scanner state inside a value: outside quotes, inside quotes, or just after a backslash outside
+quotes. -/
+inductive Q where
+  | plain | quoted | bs
+  deriving DecidableEq, Repr
+
+def consV (c : Char) (vr : Str × Option Str) : Str × Option Str := (c :: vr.1, vr.2)
+
+/-- Scan a value.  Result: the value and what follows the comma that ended it (`none`: the text
+ended).  `none`: unterminated quote. -/
+def scanValue : Q → List Char → Option (Str × Option Str)
+  | .plain, [] => some ([], none)
+  | .quoted, [] => none
+  | .bs, [] => some (['\\'], none)
+  | .quoted, c :: t =>
+    if c = '\'' then scanValue .plain t else (scanValue .quoted t).map (consV c)
+  | .plain, c :: t =>
+    if c = '\'' then scanValue .quoted t
+    else if c = ',' then some ([], some t)
+    else if c = '\\' then scanValue .bs t
+    else (scanValue .plain t).map (consV c)
+  | .bs, c :: t =>
+    if c = '\'' then (scanValue .plain t).map (consV '\'')          -- backslash-apostrophe: an apostrophe
+    else if c = ',' then some (['\\'], some t)
+    else if c = '\\' then (scanValue .bs t).map (consV '\\')
+    else (scanValue .plain t).map (fun vr => consV '\\' (consV c vr))
+
+/-- Scan a key up to `=`; a key contains neither comma nor apostrophe. -/
+def scanKey : List Char → Option (Str × Str)
+  | [] => none
+  | c :: t =>
+    if c = '=' then some ([], t)
+    else if c = ',' || c = '\'' then none
+    else (scanKey t).map (fun kr => (c :: kr.1, kr.2))
+
+def parseItemsText : Nat → Str → Option (List (Str × Str))
+  | 0, _ => none
+  | fuel + 1, text =>
+    match scanKey text with
+    | none => none
+    | some (k, rest) =>
+      match scanValue .plain rest with
+      | none => none
+      | some (v, none) => some [(k, v)]
+      | some (v, some more) => (parseItemsText fuel more).map (fun l => (k, v) :: l)
+
+/-- The `key=value` pairs of a rule text (`none`: not a rule). -/
+def parseRuleText (text : Str) : Option (List (Str × Str)) :=
+  if text.isEmpty then some [] else parseItemsText (text.length + 1) text
+
+/-- A decimal number: non-empty, ASCII digits only. -/
+def decimal? (ds : Str) : Option Nat :=
+  if ds.isEmpty || !ds.all (fun c => '0' ≤ c && c ≤ '9') then none
+  else some (ds.foldl (fun acc c => acc * 10 + (c.toNat - '0'.toNat)) 0)
+
+/-- The constraint a `key=value` pair stands for. -/
+def constraintOfItem (k v : Str) : Option Constraint :=
+  if k = "type".toList then some (.mtype v)
+  else if k = "sender".toList then some (.sender v)
+  else if k = "interface".toList then some (.iface v)
+  else if k = "member".toList then some (.member v)
+  else if k = "path".toList then some (.path v)
+  else if k = "path_namespace".toList then some (.pathNs v)
+  else if k = "destination".toList then some (.dest v)
+  else if k = "arg0namespace".toList then some (.arg0ns v)
+  else if "arg".toList.isPrefixOf k then
+    let r := k.drop 3
+    if "path".toList.isSuffixOf r then (decimal? (r.take (r.length - 4))).map (fun i => .argPath i v)
+    else (decimal? r).map (fun i => .arg i v)
+  else none
+
+/-- What a rule text means: its list of constraints (`none`: not a rule, or an unknown key). -/
+def ruleTextMeaning (text : Str) : Option (List Constraint) :=
+  (parseRuleText text).bind (fun l => l.mapM (fun kv => constraintOfItem kv.1 kv.2))
 
 /-! ### SPEC of the router: an abstract registry
 
@@ -98,5 +217,46 @@ def SpecRouter.run (s : SpecRouter) : List Op → SpecRouter × List SpecObs
     let (s', o) := s.step op
     let (s'', os) := SpecRouter.run s' ops
     (s'', o :: os)
+
+/-! ### SPEC of the client connection: a registry that is a function of the history alone
+
+A registration exists from the moment the daemon acknowledged its `AddMatch` until the moment the
+daemon acknowledged a `RemoveMatch` for its id.  Requests are numbered in the order they were sent;
+`delMatch(id)` sends a request only for an id that is registered at that moment.  The state below
+is computed from the events only - it never looks at the code model. -/
+
+inductive Request where
+  | add (cb : Cb) (a : RuleArgs)
+  | del (id : Nat)
+  deriving Repr
+
+structure ClientSpec where
+  reg : SpecRouter := {}
+  requests : List (Option Request) := []      -- k-th request sent; `none` once answered
+  deriving Repr
+
+def answered {α : Type} : Nat → List (Option α) → List (Option α)
+  | _, [] => []
+  | 0, _ :: t => none :: t
+  | k + 1, x :: t => x :: answered k t
+
+def ClientSpec.step (s : ClientSpec) : COp → ClientSpec
+  | .addMatch cb a => { s with requests := s.requests ++ [some (.add cb a)] }
+  | .delMatch id =>
+    if s.reg.live.any (fun g => g.id = id) then { s with requests := s.requests ++ [some (.del id)] } else s
+  | .replyOk k =>
+    match s.requests[k]? with
+    | some (some (.add cb a)) => { reg := (s.reg.step (.add cb a)).1, requests := answered k s.requests }
+    | some (some (.del id)) => { reg := (s.reg.step (.del id)).1, requests := answered k s.requests }
+    | _ => s
+  | .replyErr k =>
+    match s.requests[k]? with
+    | some (some _) => { s with requests := answered k s.requests }
+    | _ => s
+  | .signal _ => s
+
+def ClientSpec.run (s : ClientSpec) : List COp → ClientSpec
+  | [] => s
+  | op :: ops => ClientSpec.run (s.step op) ops
 
 end Txdbus.Route.Spec
